@@ -52,6 +52,8 @@ type Op struct {
 	Op string  `json:"op"`
 	W  []Write `json:"w"`
 	G  int     `json:"g"` // key group for dropPrefix
+	// multi: transactions issued by concurrent committers, written by the writer as one batch
+	Txs [][]Write `json:"txs"`
 }
 
 type Case struct {
@@ -221,6 +223,7 @@ type runner struct {
 	durDir  map[string]int
 	durDirL map[string]int
 
+	enq    chan struct{} // signalled by the hook commit.enqueued (multi)
 	occ    map[string]int // occurrences of each hook point since the current operation began
 	occOp  int
 	manApp int // MANIFEST appends (or rewrites) since the current operation began
@@ -328,6 +331,12 @@ func fileID(name string) int {
 
 // onEvent is called synchronously inside every hook (event or gate) of the DB under test.
 func (r *runner) onEvent(ev vh.Event) {
+	if ev.Point == "commit.enqueued" && r.enq != nil {
+		select {
+		case r.enq <- struct{}{}:
+		default:
+		}
+	}
 	r.mu.Lock()
 	defer r.mu.Unlock()
 	if !r.on || !relevant(ev.Point) {
@@ -631,6 +640,45 @@ func (r *runner) exec(o Op) (uint64, error) {
 		if err := txn.Commit(); err != nil {
 			return 0, err
 		}
+		return db.MaxVersion(), nil
+	case "multi":
+		// The first transaction is held in the writer (gate writer.batch) while the others are
+		// enqueued one after the other by their own goroutines; when the gate opens the writer
+		// finds them all in writeCh and writes them as ONE batch (writeRequests(reqs), len > 1).
+		wb := r.rec.Arm("writer.batch", nil)
+		r.enq = make(chan struct{}, len(o.Txs))
+		errs := make(chan error, len(o.Txs))
+		// all transactions start before the first one commits (a transaction started later would
+		// wait in readTs for the commit that is being held in the writer)
+		txns := make([]*badger.Txn, len(o.Txs))
+		for i, ws := range o.Txs {
+			txns[i] = db.NewTransaction(true)
+			defer txns[i].Discard()
+			for _, w := range ws {
+				if err := txns[i].Set(keyOf(w.K), valueOf(w.V, w.Big)); err != nil {
+					return 0, err
+				}
+			}
+		}
+		commit := func(i int) { errs <- txns[i].Commit() }
+		for i := range o.Txs {
+			go commit(i)
+			select {
+			case <-r.enq:
+			case <-time.After(120 * time.Second):
+				return 0, fmt.Errorf("multi: transaction %d was not enqueued", i)
+			}
+			if i == 0 && !wb.WaitParked(1, 120*time.Second) {
+				return 0, fmt.Errorf("multi: writer did not reach writer.batch")
+			}
+		}
+		wb.Disarm()
+		for range o.Txs {
+			if err := <-errs; err != nil {
+				return 0, err
+			}
+		}
+		r.enq = nil
 		return db.MaxVersion(), nil
 	case "batch":
 		wb := db.NewWriteBatch()
